@@ -33,6 +33,12 @@ fn main() {
         println!("{}", checks::c20::hex_of(&checks::c20::run_op(i)));
         return;
     }
+    if args[1] == "__c20_stress" {
+        infra::install_panic_hook();
+        let s: usize = args.get(2).and_then(|s| s.parse().ok()).unwrap_or(0);
+        checks::c20::stress_child(s);
+        return;
+    }
     let id = args[1].clone();
     let mut tier = match std::env::var("VERIF_TIER").ok().as_deref() {
         Some("thorough") => Tier::Thorough,
